@@ -52,6 +52,17 @@ func makeWorkspace(c *core.Ctx, name string, nproj int, salt int64) *workspace {
 		for k, base := range []string{"SM", "SOY", "OA"} {
 			p.UseCropCode(base, fmt.Sprintf("%c%c", 'X'+byte(k), 'A'+byte(i)))
 		}
+		// the first project's weather has days whose minimum lies above the maximum temperature: the reader warns on
+		// the session's log channel and corrects them. A valid run that talks while the dispatcher waits for a slot.
+		if i == 0 {
+			b := p.Rotation[0].Harv - p.Weather.First
+			for _, k := range []int{b + 3, b + 50, b + 120} {
+				if k >= 0 && k < len(p.Weather.Days) {
+					d := &p.Weather.Days[k]
+					d.Tmin, d.Tmax = d.Tmax+12, d.Tmin
+				}
+			}
+		}
 		p.Write(root, paramSrc)
 		// a second weather file with a hole in the middle (negative test: gap in weather data)
 		g := *p
